@@ -375,7 +375,7 @@ func (s *pState) flush(cw *cwriter.Writer, height int, iter <-chan *Bar) error {
 		}
 		var usedRows int
 		for i := len(frame.rows) - 1; i >= 0; i-- {
-			if row := frame.rows[i]; len(rows) < height {
+			if row := frame.rows[i]; len(rows) < height-1 {
 				rows = append(rows, row)
 				usedRows++
 			} else {
